@@ -298,6 +298,13 @@ def run(check_mod, tier, seed) -> int:
                 hangs.append((idx, res.get("hang_case")))
             _merge(merged, res)
             shard_walls.append(round(res["wall"], 2))
+            if os.environ.get("VERIF_STOP_EARLY") and any(match_open_finding(load_findings(pid), k) is None for k in merged.violations):
+                # regression tooling only (tools/seedall_wt.py): a deliberately broken tree needs one confirmed violation,
+                # not the whole scope.  The registered commands never set this.
+                errors.append("stopped early after the first violation (VERIF_STOP_EARLY)")
+                for p in procs:
+                    p.kill()
+                break
         for p in procs:
             p.join(timeout=5)
             if p.is_alive():
